@@ -28,6 +28,11 @@ def run(check: Check, repo: Repo, tier: str) -> None:
     D.client_builds_from_data(check, repo)
     D.cross_schema_by_name(check, repo)
     D.default_verbatim(check, repo)
+    D.introspection_depth_lists(check, repo)
+    D.type_lookup_from_schema(check, repo)
+    from rules import schema_rules as S18
+
+    S18.deprecation_direction(check, repo)
     L.number_parts(check, repo)
     from rules import coercion_rules as K2
     K2.field_requiredness(check, repo)
